@@ -251,7 +251,8 @@ class Recorder:
         pols = cfg.get("policies") or self.ad.policies(self.tier)
         n = cfg.get("episodes", 6)
         for ep in range(n):
-            key = jax.random.PRNGKey(self.seed * 100003 + ep * 17 + 1)
+            key = (self.ad.episode_key(cfg, ep, self.seed) if hasattr(self.ad, "episode_key") and self.ad.episode_key(cfg, ep, self.seed) is not None
+                   else jax.random.PRNGKey(self.seed * 100003 + ep * 17 + 1))
             self.episode(ep, key, pols[ep % len(pols)], cfg.get("max_steps", 60),
                          probe_every=cfg.get("probe_every", 1), probe_cap=cfg.get("probe_cap"),
                          post_terminal=cfg.get("post_terminal", 2))
